@@ -367,6 +367,11 @@ impl Hypercore {
         }
 
         let byte_range = self.byte_range(index, None).await?;
+        if byte_range.length == 0 {
+            // An empty block has no bytes in the data store; its offset can lie beyond the
+            // end of the store when the blocks before it have been cleared.
+            return Ok(Some(vec![]));
+        }
 
         // TODO: Generalize Either response stack
         let data = match self.block_store.read(&byte_range, None) {
